@@ -54,6 +54,19 @@ VARIANTS = {
         build_type="RelWithDebInfo",
         cflags="-fno-omit-frame-pointer -fsanitize=thread -Wno-error %s" % HOOK_FLAGS,
         ldflags="-fsanitize=thread"),
+    # clang 14 + libFuzzer instrumentation (coverage feedback) + ASan + the gating UBSan subset; the harness drives
+    # libFuzzer through LLVMFuzzerRunDriver (libclang_rt.fuzzer_no_main)
+    "fuzz": dict(
+        build_type="Debug", cc="clang",
+        # clang's pointer-overflow check is left out here: it fires on `decl_body->ptr[decl_body->len - 1]` for the
+        # XML declaration `<>` (index SIZE_MAX, i.e. ptr[-1], which is the '<' of the input: in bounds) - UB by the
+        # letter, but not an access outside the input, which is what C04 states (DESIGN.md section 9).
+        cflags="-O1 -g -fno-omit-frame-pointer -fsanitize=fuzzer-no-link,address -fsanitize=bounds,null,"
+               "vla-bound,return,unreachable,integer-divide-by-zero,bool,enum,builtin "
+               "-fno-sanitize=object-size -fno-sanitize-recover=all -Wno-error",
+        ldflags="-fsanitize=address -fsanitize=bounds,null,vla-bound,return,unreachable,"
+                "integer-divide-by-zero,bool,enum,builtin "
+                "/usr/lib/llvm-14/lib/clang/14.0.6/lib/linux/libclang_rt.fuzzer_no_main-x86_64.a -lstdc++"),
     "ubcen": dict(
         build_type="Debug",
         cflags="-O1 -g -fno-omit-frame-pointer -fsanitize=undefined -fsanitize-recover=all -Wno-error",
@@ -96,7 +109,7 @@ def build_variant(variant, quiet=True):
             cmd = ["cmake", "-G", "Ninja", "-S", REPO, "-B", bdir,
                    "-DCMAKE_BUILD_TYPE=" + v["build_type"],
                    "-DBUILD_TESTING=OFF", "-DBUILD_SHARED_LIBS=OFF",
-                   "-DCMAKE_C_COMPILER=gcc",
+                   "-DCMAKE_C_COMPILER=" + v.get("cc", "gcc"),
                    "-DCMAKE_C_FLAGS=" + v["cflags"]]
             if _run(cmd, log) != 0:
                 raise BuildError("cmake configure failed for %s (see %s)" % (variant, log))
@@ -152,7 +165,7 @@ def compile_harness(variant, sources, out_name, extra_cflags="", wrap=False, ext
         ld += ["-Wl," + ",".join("--wrap=" + s for s in WRAP_SYMS)]
     else:
         cflags.append("-DVERIF_NO_WRAP=1")
-    cmd = (["gcc"] + cflags + inc + srcs + [os.path.join(bdir, "libaws-c-common.a")]
+    cmd = ([v.get("cc", "gcc")] + cflags + inc + srcs + [os.path.join(bdir, "libaws-c-common.a")]
            + ld + ["-lpthread", "-ldl", "-lm", "-o", out])
     if _run(cmd, log) != 0:
         raise BuildError("harness compile failed: %s (see %s)\n%s" %
